@@ -419,14 +419,18 @@ def client_role(res):
 
 def serialisation(res):
     """Outgoing frames at the extended-length boundaries equal the independent encoder."""
-    for blen in (0, 1, 12, 13, 14, 268, 269, 270, 65804, 65805, 65806):
+    for blen in (0, 1, 12, 13, 14, 268, 269, 270, 65535, 65536, 65537, 65700, 65804, 65805, 65806):
         for tkl in (0, 1, 8):
             tok = b"t" * tkl
             pl = b"q" * (blen - 1) if blen else b""
             m = Message(code=69, _token=tok, payload=pl)
-            got = tcp._serialize(m)
             want = rc.encode_tcp(69, tok, [], pl)
             res.evaluations += 1
+            try:
+                got = tcp._serialize(m)
+            except Exception as e:
+                res.violate(Violation("serialisation", want[:12].hex(), core.exc_desc(e), core.site_of(e), {"body_len": blen, "tkl": tkl}, key="ser-raises"))
+                continue
             if got != want:
                 res.violate(Violation("serialisation", want[:12].hex(), got[:12].hex(), "transports/tcp.py:_serialize", {"body_len": blen, "tkl": tkl}, key="ser"))
             sz = tcp._extract_message_size(got)
